@@ -20,6 +20,9 @@ never silently skipped):
            | and / or / not | comparison chain with < <= > >= == != in
            | min(a, b) | max(a, b) | a + b | a - b | obj.method(args) | func(args)
            | Dataclass(kw=expr, ..) / Dataclass(expr, ..)
+           | f"..{int expr}..{str expr}.."  (no conversion, no format spec) | "literal" | str(int expr) | str + str
+             -> a character list (`List Char`); `{i}` / `str(i)` on an int is `pyIntStr i` (decimal, leading `-`)
+  a method may carry the single decorator `@property` (translated as a function of `self`)
 
 Python semantics respected:
   * a comparison on a dataclass uses the method the class defines, otherwise the *reflected* method of
@@ -53,6 +56,7 @@ TARGETS = [
     ("CodeRange", "__lt__"), ("CodeRange", "__le__"), ("CodeRange", "__add__"),
     (None, "get_code_range"), (None, "EMPTY_CODE_RANGE"),
     ("CodeOrigin", "__add__"),
+    ("CodeRange", "fqn"),
 ]
 STRUCTS = ["CodePoint", "CodeRange", "CodeOrigin"]
 ABSTRACT = {"Source": "S"}           # abstract types: only == and != are available
@@ -104,6 +108,7 @@ class Translator:
         self.out: list[str] = []
         self.cur = ""
         self.uses_abstract = False
+        self.uses_intstr = False
         self.inst: dict[tuple[str, str], bool] = {}     # isinstance(p, C) tests with a fixed outcome (see translate_function)
 
     # ------------------------------------------------------------------ classes
@@ -149,6 +154,8 @@ class Translator:
             return "Int"
         if t == "bool":
             return "Bool"
+        if t == "str":
+            return "(List Char)"
         if t in ABSTRACT:
             self.uses_abstract = True
             return ABSTRACT[t]
@@ -234,7 +241,9 @@ class Translator:
         where = f"{cname}.{fd.name}" if cname else fd.name
         self.cur = where
         a = fd.args
-        if a.vararg or a.kwarg or a.kwonlyargs or a.posonlyargs or a.defaults or fd.decorator_list:
+        is_property = len(fd.decorator_list) == 1 and isinstance(fd.decorator_list[0], ast.Name) \
+            and fd.decorator_list[0].id == "property" and cname is not None and len(a.args) == 1
+        if a.vararg or a.kwarg or a.kwonlyargs or a.posonlyargs or a.defaults or (fd.decorator_list and not is_property):
             raise Unsupported(where, "signature with defaults / *args / decorators not supported")
         env: dict[str, str] = {}
         params: list[str] = []
@@ -452,7 +461,28 @@ class Translator:
                 return ("true" if e.value else "false"), "bool"
             if isinstance(e.value, int):
                 return (str(e.value) if e.value >= 0 else f"({e.value})"), "int"
+            if isinstance(e.value, str):
+                return f"({self.char_list(e.value)} : List Char)", "str"
             raise Unsupported(where, f"literal {e.value!r}")
+        if isinstance(e, ast.JoinedStr):
+            parts = []
+            for v in e.values:
+                if isinstance(v, ast.Constant) and isinstance(v.value, str):
+                    parts.append(self.char_list(v.value))
+                elif isinstance(v, ast.FormattedValue):
+                    if v.conversion != -1 or v.format_spec is not None:
+                        raise Unsupported(where, "f-string with a conversion / format spec")
+                    t, ty = self.expr(v.value, env)
+                    if ty == "int":
+                        self.uses_intstr = True
+                        parts.append(f"(pyIntStr {self.atom(t)})")
+                    elif ty == "str":
+                        parts.append(self.atom(t))
+                    else:
+                        raise Unsupported(where, f"f-string field of type {ty}")
+                else:
+                    raise Unsupported(where, "f-string part not supported")
+            return ("(" + " ++ ".join(parts) + ")" if parts else "([] : List Char)"), "str"
         if isinstance(e, ast.UnaryOp) and isinstance(e.op, ast.USub):
             t, ty = self.expr(e.operand, env)
             if ty != "int":
@@ -490,6 +520,8 @@ class Translator:
             sym, dunder = ("+", "__add__") if isinstance(e.op, ast.Add) else ("-", "__sub__")
             if aty == "int" and bty == "int":
                 return f"({a} {sym} {b})", "int"
+            if aty == "str" and bty == "str" and sym == "+":
+                return f"({a} ++ {b})", "str"
             if aty in STRUCTS and self.method(aty, dunder) is not None:
                 nm, rty = self.need(aty, dunder)
                 self.check_args(aty, dunder, [bty])
@@ -502,6 +534,13 @@ class Translator:
         if isinstance(e, ast.Call):
             return self.call(e, env)
         raise Unsupported(where, f"expression `{ast.unparse(e)}` not supported")
+
+    def char_list(self, text: str) -> str:
+        """a str literal as an explicit Lean character list (printable ASCII only; no escapes needed)"""
+        for ch in text:
+            if not (32 <= ord(ch) < 127) or ch in "'\\":
+                raise Unsupported(self.cur, f"character {ch!r} in a string literal")
+        return "[" + ", ".join(f"'{ch}'" for ch in text) + "]"
 
     def check_args(self, cname: str | None, f: str, tys: list[str]) -> None:
         want = self.sigs[(cname, f)]
@@ -566,6 +605,14 @@ class Translator:
             # CPython: min keeps the first on ties (replaces when item < best), max likewise (item > best)
             c = self.compare(ast.Lt() if f.id == "min" else ast.Gt(), e.args[1], e.args[0], env)
             return f"(if {c} then {b} else {a})", aty
+        if isinstance(f, ast.Name) and f.id == "str" and len(e.args) == 1 and not e.keywords:
+            a, aty = self.expr(e.args[0], env)
+            if aty == "int":
+                self.uses_intstr = True
+                return f"(pyIntStr {self.atom(a)})", "str"
+            if aty == "str":
+                return a, "str"
+            raise Unsupported(where, f"str() of {aty}")
         if isinstance(f, ast.Name) and f.id in STRUCTS:
             fs = self.struct_fields(f.id)
             vals: dict[str, tuple[str, str]] = {}
@@ -625,6 +672,9 @@ class Translator:
                 "   A constructor call `C(..)` is translated to the bare record; the validation done by `C.__post_init__`\n"
                 "   is the generated `C.valid`, applied by the hand-written callers (Model/Origin.lean). -/\n"
                 "namespace PyOak.Gen\n")
+        if self.uses_intstr:
+            head += ("\n/-- Python `str(i)` / `f\"{i}\"` for an int: decimal digits, a leading `-` for negatives -/\n"
+                     "def pyIntStr (i : Int) : List Char := (toString i).toList\n")
         return head + "\n" + "\n\n".join(self.out) + "\n\nend PyOak.Gen\n", failures
 
 
